@@ -14,6 +14,12 @@ under test) under two import orders and reports the file / namespace directory s
 for every probed name.  `infer` and `goto(follow_imports=True)` must give exactly that.
 Second clause: the dotted name jedi derives for a file must import back to that file in the
 child.
+
+Shared-Project histories: one default ("smart" sys.path) `jedi.Project` object (also with
+`added_sys_path`) analyses scripts in different sibling folders one after the other, all
+alternating pairs/triples (2 folders) and all orders (3 folders) x all module subsets per
+folder.  Oracle for every step: the child with sys.path = script folder + project root
+(+ added entries) for that script alone - earlier scripts must not leak into later answers.
 """
 import json
 import os
@@ -146,12 +152,17 @@ def fam_spine(names, znames=None):
 def families(tier):
     if tier == 'quick':
         return [
+            # cheap (flat trees, ~60 core-s together): first, so that a time cap never cuts them
+            ('shared-project/2 folders/histories<=3', list(fam_shared(2, ['smart', 'added']))),
+            ('shared-project/3 folders/all orders', list(fam_shared(3, ['smart']))),
             ('single-root<=3 nodes/depth3/pool2', list(fam_single(POOL2, 3, 3))),
             ('two-roots<=3 nodes/depth3/pool2', list(fam_pairs(POOL2, 3, 3))),
             ('nested-root<=3 nodes/depth2/pool2', list(fam_nested(POOL2, 2, 3))),
             ('spine(5 nodes, z=a)/pool2', list(fam_spine(POOL2, POOL2[:1]))),
         ]
     return [
+        ('shared-project/2 folders/histories<=3', list(fam_shared(2, ['smart', 'added']))),
+        ('shared-project/3 folders/all orders', list(fam_shared(3, ['smart', 'added']))),
         ('single-root<=4 nodes/depth4/pool2', list(fam_single(POOL2, 4, 4))),
         ('two-roots<=4 nodes/depth4/pool2', list(fam_pairs(POOL2, 4, 4))),
         ('nested-root<=4 nodes/depth4/pool2', list(fam_nested(POOL2, 4, 4))),
@@ -643,6 +654,8 @@ def judge(layout, pl, jn, ch, jobs):
 
 def _work(task):
     """task = {'layouts': [layout...], 'only': optional pid}"""
+    if task['layouts'] and task['layouts'][0].get('kind') == 'shared':
+        return _work_shared(task)
     jedi = boot.boot()
     env = boot.environment()
     plans = []
@@ -701,6 +714,195 @@ def _work(task):
     return out
 
 
+# ------------------------------------------------------------------------------------------
+# shared-Project histories: ONE default ("smart") Project object analyses scripts that live in
+# different sibling folders, one after the other.  The answer for every script must be what
+# Python gives for that script alone (sys.path = script folder + project root + configured
+# entries), i.e. it must not depend on which scripts the Project analysed before.
+
+SHARED_NAMES = POOL3 + ('lb',)
+
+
+def _subsets(names):
+    for mask in range(1 << len(names)):
+        yield tuple(n for i, n in enumerate(names) if mask >> i & 1)
+
+
+def fam_shared(nfolders, variants):
+    """Folders d1..dn under the project root, each holding a script s.py and any subset of
+    the modules a.py/ab.py/b.py (so: same-named modules in several folders and folder-only
+    modules); lib/lb.py is the target of added_sys_path in the 'added' variant.
+    2 folders: every pair of subsets, histories = alternating sequences of length 2 and 3;
+    3 folders: every folder has a.py (+ any subset of ab, b), histories = all orders."""
+    import itertools
+    if nfolders == 2:
+        contents = [(c1, c2) for c1 in _subsets(POOL3) for c2 in _subsets(POOL3)]
+        hists = [(0, 1), (1, 0), (0, 1, 0), (1, 0, 1)]
+    else:
+        subs = [('a',) + c for c in _subsets(POOL3[1:])]
+        contents = list(itertools.product(subs, repeat=3))
+        hists = list(itertools.permutations(range(3)))
+    for cont in contents:
+        for variant in variants:
+            for h in hists:
+                tid = ';'.join('d%d=%s' % (i + 1, ','.join(c)) for i, c in enumerate(cont))
+                yield {'kind': 'shared', 'folders': [list(c) for c in cont], 'variant': variant,
+                       'history': list(h),
+                       'id': 'shared-project:%s|%s|hist=%s' % (
+                           tid, variant, ','.join('d%d' % (i + 1) for i in h))}
+
+
+def _shared_statements():
+    out = []
+    for n in SHARED_NAMES:
+        st = _Stmt().add('import ').add(n, ('mod', 0, n))
+        out.append(('import', st))
+        st = _Stmt().add('from ').add(n, ('mod', 0, n)).add(' import ').add(
+            DEFNAME, ('bind', DEFNAME, None))
+        out.append(('from-import', st))
+    return [(form, st.text, [p[:-1] + [1, p[-1]] for p in st.probes]) for form, st in out]
+
+
+_site_checked = []
+
+
+def _check_env_has_no_pool_names(env):
+    if _site_checked:
+        return
+    for d in env.get_sys_path():
+        for n in SHARED_NAMES:
+            if d and (os.path.exists(os.path.join(d, n + '.py')) or os.path.isdir(os.path.join(d, n))):
+                raise RuntimeError('pool name %r exists in the environment sys.path entry %r' % (n, d))
+    _site_checked.append(1)
+
+
+def _work_shared(task):
+    jedi = boot.boot()
+    env = boot.environment()
+    _check_env_has_no_pool_names(env)
+    stmts = _shared_statements()
+    plans = []
+    docs = []
+    for spec in task['layouts']:
+        base = _fresh_base()
+        proj = os.path.join(base, 'proj')
+        scripts = []
+        for i, mods in enumerate(spec['folders']):
+            d = os.path.join(proj, 'd%d' % (i + 1))
+            os.makedirs(d)
+            for m in mods:
+                with open(os.path.join(d, m + '.py'), 'w') as fh:
+                    fh.write(BASE_SRC)
+            with open(os.path.join(d, 's.py'), 'w') as fh:
+                fh.write('')
+            scripts.append(os.path.join(d, 's.py'))
+        lib = os.path.join(proj, 'lib')
+        os.makedirs(lib)
+        with open(os.path.join(lib, 'lb.py'), 'w') as fh:
+            fh.write(BASE_SRC)
+        added = [lib] if spec['variant'] == 'added' else []
+        for i in sorted(set(spec['history'])):
+            d = os.path.dirname(scripts[i])
+            docs.append({
+                'tid': '%s#%d' % (base, i), 'sys_path': [d, proj] + added, 'names': [],
+                'file_names': [], 'preimport': sorted(spec['folders'][i]) + (['lb'] if added else []),
+                'programs': [{'pid': text, 'file': scripts[i], 'main': True,
+                              'src': child_src(text),
+                              'probes': [[q[0], q[1], q[2]] for q in probes]}
+                             for form, text, probes in stmts]})
+        plans.append((spec, base, proj, scripts, added))
+    res = run_child(docs, SHARED_NAMES)
+    for n, d in res['pool_clean'].items():
+        if d != ['none']:
+            raise RuntimeError('pool name %r is importable without any root: %r' % (n, d))
+    out = {'fails': [], 'counts': {}, 'classes': set(), 'layouts': len(plans), 'samples': {}}
+
+    def inc(k, n=1):
+        out['counts'][k] = out['counts'].get(k, 0) + n
+
+    for spec, base, proj, scripts, added in plans:
+        # the ONE Project object of this history
+        project = jedi.Project(proj, added_sys_path=list(added))
+        for step, i in enumerate(spec['history']):
+            exp_all = res['trees']['%s#%d' % (base, i)]['programs']
+            for form, text, probes in stmts:
+                inc('programs')
+                exp = exp_all[text]['__main__']
+                exp = {c: exp.get(c, exp['A']) for c in CONDS}
+                if any('harness' in exp[c] for c in CONDS):
+                    raise RuntimeError('oracle gave no answer for %s: %r' % (text, exp))
+                obs = None
+                try:
+                    script = jedi.Script(text + '\n', path=scripts[i], project=project,
+                                         environment=env)
+                except Exception as e:
+                    obs = {'exc': [canon.exc_site(e), canon.short_tb(e)]}
+                for k, pr in enumerate(probes):
+                    accept = []
+                    for c in CONDS:
+                        if exp[c]['probes'][k] not in accept:
+                            accept.append(exp[c]['probes'][k])
+                    label = '%s:%s@%d,%d' % (pr[0], pr[2] if pr[0] == 'mod' else pr[1], pr[3], pr[4])
+                    for m, kw in METHODS:
+                        inc('queries')
+                        iid = '%s|step=%d:d%d/s.py|%s|%s|%s' % (spec['id'], step, i + 1, text,
+                                                               label, m)
+                        o = obs
+                        if o is None:
+                            try:
+                                cs = []
+                                for d in getattr(script, m)(pr[3], pr[4], **kw):
+                                    c = _canon_name(d)
+                                    if c not in cs:
+                                        cs.append(c)
+                                o = sorted(cs, key=json.dumps)
+                            except Exception as e:
+                                o = {'exc': [canon.exc_site(e), canon.short_tb(e)]}
+                        detail = _rel({
+                            'project': 'jedi.Project(%r%s) shared by all steps' % (
+                                proj, ', added_sys_path=[lib]' if added else ''),
+                            'scripts_analysed_before': [
+                                'd%d/s.py' % (j + 1) for j in spec['history'][:step]],
+                            'issuing_file': scripts[i], 'code': text, 'position': [pr[3], pr[4]],
+                            'python_sys_path_for_this_script_alone':
+                                [os.path.dirname(scripts[i]), proj] + added,
+                            'python': accept, 'jedi': o, 'tree': spec['id']}, base)
+                        if isinstance(o, dict):
+                            out['fails'].append({'site': 'shared-project/' + o['exc'][0],
+                                                 'input': iid, 'layout': spec,
+                                                 'detail': dict(detail, traceback=o['exc'][1])})
+                            continue
+                        if any(e[0] in ('error', 'other', 'beyond') for e in accept):
+                            inc('unjudged(unexpected python outcome)')
+                            continue
+                        inc('judged-strict' if len(accept) == 1 else
+                            'order-dependent(either accepted)')
+                        inc('expect:shared-%s/%s' % (form, '|'.join(sorted({e[0] for e in accept}))))
+                        okay = any((o == [] if e == ['none'] else o == [e]) for e in accept)
+                        out['classes'].add(('shared-' + form, 'step%d' % step, pr[0],
+                                            tuple(sorted({e[0] for e in accept})),
+                                            tuple(x[0] for x in o), okay))
+                        if okay:
+                            if step and accept[0] != ['none']:
+                                out['samples'].setdefault('shared-' + form, dict(detail))
+                            continue
+                        if o == []:
+                            site = 'unresolved@' + m
+                        elif all(e == ['none'] for e in accept):
+                            site = 'resolved-but-python-finds-nothing@' + m
+                        else:
+                            site = 'wrong-target@' + m
+                        out['fails'].append({'site': 'shared-project/' + site, 'input': iid,
+                                             'layout': spec, 'detail': detail})
+                script = None
+                _forget(base, scripts[i])
+        _forget(base)
+        if not os.environ.get('JV_KEEP_SCRATCH'):
+            shutil.rmtree(base, ignore_errors=True)
+    out['classes'] = sorted(map(repr, out['classes']))
+    return out
+
+
 def _batches(layouts, size, tier):
     return [{'layouts': layouts[i:i + size], 'tier': tier} for i in range(0, len(layouts), size)]
 
@@ -741,7 +943,7 @@ def run(ctx):
             for f in r['fails']:
                 pid = None
                 parts = f['input'][len(f['layout']['id']) + 1:]
-                if not parts.startswith('name:'):
+                if not parts.startswith('name:') and f['layout'].get('kind') != 'shared':
                     pid = '|'.join(parts.split('|')[:2])
                 ctx.violation(f['site'], f['input'], f['detail'],
                               {'layout': f['layout'], 'pid': pid, 'input': f['input'],
@@ -786,6 +988,9 @@ def run(ctx):
         'a bare use (after a star import) of a name that is also a submodule of the issuing '
         'package __init__ is not judged: jedi treats submodule names as module-level names of '
         'a package, which is name lookup, not import resolution',
+        'shared-project families: module names live only inside the script folders / lib (never '
+        'at the project root or in the environment), so the position of the script folder '
+        'within jedi\'s smart sys.path (last) versus Python\'s (first) cannot matter',
         'files that no dotted name imports (shadowed by a package/earlier root) are neither '
         'used as issuing modules nor judged for the derived-name clause',
         'parso\'s in-memory tree of the issuing file (the buffer) is dropped after every '
